@@ -15,6 +15,7 @@ UNIT = dict(
         'std::unique_ptr<std::atomic<uint64_t>[]> _data becomes an array of 2*CAP words; std::atomic cells are plain words (SEQ); '
         'by-reference result of dequeue becomes a pointer; alignas dropped',
   assumptions=['head and tail positions stay below 2^61 (2^61 operations on one ring); the signed cycle comparison of the code is only meaningful far below 2^63',
+               'finalized rings: the *_f1 runs restrict the number of burnt tail tickets to G=2 (classified bounded); the *_f1_anygap runs lift that to any number below 2^40 (shape-complete: the threshold bounds what one dequeue can visit) - capacity 1 in the quick tier, capacity 2 in the thorough tier (190 s)',
                'SEQ only: the concurrent behaviour of the ring (safe bit, threshold bound 3n-1 under contention) is the composition lemma of C05/C04'],
   consts=[dict(name='cacheline_size', file=S, regex=r'static constexpr std::size_t cacheline_size = ([^;]+);'),
           dict(name='indexes_per_cacheline', file=S, regex=r'static constexpr std::size_t indexes_per_cacheline = ([^;]+);'),
@@ -68,6 +69,11 @@ UNIT = dict(
             note='from ANY state of Inv_S (head position < 2^61, arbitrary older cycles and safe bits); the retry loops are complete within the unwinding (unwinding assertions): '
                  'CAS-retry and do-while 1 iteration, for(;;) 1 iteration' + (' + one per burnt ticket; finalized rings: at most G=2 burnt tail tickets' if f else ''))
        for op in ('enq', 'deq') for f in (0, 1) for c, tiers in ((1, ['quick', 'thorough']), (2, ['quick', 'thorough']), (4, ['thorough']), (8, ['thorough']))
+  ] + [dict(id='%s_c%d_f1_anygap' % (op, c), entry='h_' + op, defs={'CAP': c, 'Finalizable': 1, 'GAP_ANY': 1, 'PopRetries': 1}, unwind=3 * c + 2,
+            unwindset=['scq_enqueue.0:2', 'scq_enqueue.1:2', 'scq_catchup.0:2', 'scq_dequeue.0:%d' % (3 * c + 1), 'scq_dequeue.1:2', 'scq_dequeue.2:%d' % (3 * c + 1)],
+            tiers=tiers, cls='shape-complete', timeout=3000,
+            note='finalized ring with ANY number (< 2^40) of burnt tail tickets: the retry loops of dequeue are complete within 3*CAP iterations because every drawn ticket costs one unit of threshold (unwinding assertions)')
+       for op in ('enq', 'deq') for c, tiers in ((1, ['quick', 'thorough']), (2, ['thorough']))
   ] + [dict(id='enq_overtaken_c%d' % c, entry='h_enq_overtaken', defs={'CAP': c, 'Finalizable': 0, 'G': 0}, unwind=2 * c + 2,
             unwindset=['scq_enqueue.0:2', 'scq_enqueue.1:3'], tiers=tiers, cls='shape-complete',
             note='mid-operation state: empty ring, a dequeuer holds head ticket T = tail and has passed slot(T)')
